@@ -163,7 +163,7 @@ func (s16 *bootState16) setNext(s snap.PlaceInfo, bootCtx NextBootContext) (rbi 
 	nextBootVar := fmt.Sprintf("snap_try_%s", s16.varSuffix)
 	goodBootVar := fmt.Sprintf("snap_%s", s16.varSuffix)
 
-	u16, err := newBootStateUpdate16(nil, "snap_mode", goodBootVar)
+	u16, err := newBootStateUpdate16(nil, "snap_mode", goodBootVar, nextBootVar)
 	if err != nil {
 		return RebootInfo{RebootRequired: false}, nil, err
 	}
@@ -179,10 +179,13 @@ func (s16 *bootState16) setNext(s snap.PlaceInfo, bootCtx NextBootContext) (rbi 
 		// and switched to the good core/kernel again, make
 		// sure to clean the snap_mode here. This also
 		// mitigates https://forum.snapcraft.io/t/5253
-		if env["snap_mode"] == DefaultStatus {
+		if env["snap_mode"] == DefaultStatus && env[nextBootVar] == "" {
 			// already clean
 			return RebootInfo{RebootRequired: false}, nil, nil
 		}
+		// also when the mode was already cleaned on behalf of
+		// the other snap type a leftover try variable must go,
+		// or the next try boot would pick it up again
 		// clean
 		snapMode = DefaultStatus
 		nextBoot = ""
